@@ -1234,6 +1234,8 @@ int64_t ExpressionEvaluator::evaluate_function_call_impl(const ASTNode *node) {
                         } else {
                             // 整数の場合
                             arg_var.value = typed_val.value;
+                            arg_var.double_value =
+                                static_cast<double>(typed_val.value);
                         }
 
                         args.push_back(arg_var);
@@ -3663,6 +3665,7 @@ int64_t ExpressionEvaluator::evaluate_function_call_impl(const ASTNode *node) {
                 } else {
                     // 整数の場合
                     arg_var.value = typed_val.value;
+                    arg_var.double_value = static_cast<double>(typed_val.value);
                 }
 
                 args.push_back(arg_var);
